@@ -500,6 +500,15 @@ impl JoinPlanner {
             return ir;
         }
 
+        // A Union combines independent rule bodies (one per clause of a head).
+        // Plan each branch on its own: building one join graph across branches
+        // would join scans that belong to different clauses.
+        if let IRNode::Union { inputs } = ir {
+            return IRNode::Union {
+                inputs: inputs.into_iter().map(|i| self.plan_joins(i)).collect(),
+            };
+        }
+
         // Only optimize if there are joins
         if !Self::has_joins(&ir) {
             return ir;
